@@ -176,7 +176,7 @@ func mergeAndValidateOIDCConfigs(cfg *configv1.Config) error {
 
 			// validate the callback and the logout path are different
 			callbackURI, _ := url.Parse(f.GetOidc().GetCallbackUri())
-			if f.GetOidc().GetLogout() != nil && callbackURI.Path == f.GetOidc().GetLogout().GetPath() {
+			if f.GetOidc().GetLogout() != nil && callbackURI.EscapedPath() == f.GetOidc().GetLogout().GetPath() {
 				errs = append(errs, fmt.Errorf("%w: callback and logout paths must be different in chain %q", ErrMustBeDifferentPath, fc.Name))
 			}
 		}
